@@ -29,6 +29,20 @@ def resultsFinalisedAfterHashFact : Bool :=
     ["header.LastQuorumCertificate, header.Vdf = ...", "SetHash", "Marshal(block)",
      "BlockResult.BlockHeader = header", "CalculateSlashRecipients", "CalculateCheckpoint(BlockResult)"]
 
+/-- `ProduceProposal` never updates a field of the cached proposal's header from that field's own
+previous value (no `+=`, `++`, `x = x + …`): every header field it sets is assigned from its inputs
+(last certificate, VDF, the last committed block), so serving one cached proposal to several calls —
+a leader that leads again at the same height with an unchanged mempool — gives each call the header a
+fresh build would give -/
+def headerAssignedFromInputsFact : Bool :=
+  produceProposalHeaderReadModifyWrite == [] &&
+  produceProposalHeaderAssigns ==
+    ["p.Block.BlockHeader.LastQuorumCertificate, p.Block.BlockHeader.Vdf = lastCertificate, vdf",
+     "p.Block.BlockHeader.TotalVdfIterations = vdf.GetIterations() + lastBlock.BlockHeader.TotalVdfIterations"]
+
+/-- what `honest_proposal_accepted` needs of `ProduceProposal` -/
+def proposalBuildFact : Bool := resultsFinalisedAfterHashFact && headerAssignedFromInputsFact
+
 end Canopy.Exec
 
 namespace Canopy.Atomic
